@@ -107,6 +107,40 @@ def run(ctx):
             a = H.path_local(n["args"][2])
             ctx.inst("C04.R1", "binder[%s]#recursion-uses-copy@%s" % (lab, a), a != bound_p, "recursive call in the binder arm passes %r" % a, H.loc(n))
 
+    # binder order in do-blocks: `x = x + 1` reads the OUTER x, so the value is scanned before the name becomes bound
+    for a in m[0]["arms"]:
+        if "DoBlock" not in [H.last(v) for v in H.pat_variants(a["pat"])]:
+            continue
+        cands = []
+        for n in H.walk(a["body"]):
+            if H.kind(n) == "If" and H.kind(n["cond"]) == "LetExpr":
+                cands.append((n["cond"]["pat"], n["then"]))
+            if H.kind(n) == "Match":
+                for aa in n["arms"]:
+                    cands.append((aa["pat"], aa["body"]))
+        k = 0
+        for pat, body in cands:
+            st = [x for x in H.walk(pat) if H.kind(x) == "Struct" and (x["res"].get("def") or "").endswith("ast::Expr::Assignment")]
+            if not st:
+                continue
+            fb = {f["name"]: (H.pat_binds(f["pat"]) or [None])[0] for f in st[0]["fields"]}
+            seq = list(H.walk(body))
+            ins = [i for i, x in enumerate(seq) if H.kind(x) == "MethodCall" and x["name"] == "insert" and "HashSet" in x.get("recv_ty", "") and any(H.path_local(y) == fb.get("ident") for y in H.walk(x["args"][0]))]
+            rec = [i for i, x in enumerate(seq) if H.kind(x) == "Call" and x.get("def") == CFV and any(H.path_local(y) == fb.get("value") for y in H.walk(x["args"][0]))]
+            ok = bool(ins) and bool(rec) and max(rec) < min(ins)
+            ctx.inst("C04.R1", "binder[Expr::DoBlock]#value-before-name[%d]" % k, ok,
+                     "in a do-block assignment the right-hand side is scanned for free variables (%d call(s)) before the assigned name joins the bound set (%d insert(s)): %s" % (len(rec), len(ins), ok), H.loc(body))
+            k += 1
+        if k == 0:
+            ctx.inst("C04.R1", "binder[Expr::DoBlock]#value-before-name", None, "no Assignment pattern found in the DoBlock arm", H.loc(a["body"]))
+
+    special_names(ctx, "C04.R1", core)
+
+    # ---------------- R4 a function's self name is fixed
+    from rules import c02
+    c02.heap_write_once(ctx, "C04.R4", core, [core, ctx.cli, ctx.wasm], M.CallGraph([core, ctx.cli, ctx.wasm]),
+                        doc="a closure is immutable after creation: heap cells are only appended and the one in-place write (LambdaDef.name, the self-reference bound at call time) happens only while the name is unset, so aliasing a function cannot change which names its body sees")
+
     # ---------------- R2 scope-chain construction
     ctx.rule("C04.R2", "a function body runs in extend_with(parent, locals) where parent is the caller's environment extended by the captured scope; parameters are inserted into the locals after the self name and `inputs` (so they win); the captured scope is built from bindings.get(name) for exactly the collected names", floor=5)
     fc = M.Fn(core.mir_fn(FCALL), FCALL)
@@ -239,3 +273,36 @@ def run(ctx):
     body_calls = fc.calls_to(EVAL) + fc.calls_to(CORE + "functions::BuiltInFunction::call")
     okd = len(chk) == 1 and all(fc.dominates(chk[0], b) for b in body_calls)
     ctx.inst("C04.R3", "check_arity-dominates-call", okd, "check_arity(args.len())? dominates the body evaluation and the built-in dispatch: %s" % okd, fc.loc(chk[0]) if chk else None)
+
+
+def special_names(ctx, rid, core):
+    """what the evaluator resolves before the environment lookup is exactly what the capture analysis skips (shared with C05)"""
+    hev = core.hir_fn(EVAL)
+    hcf = core.hir_fn(CFV)
+    m = H.matches_on(hcf["body"], "ast::Expr")
+    if not m:
+        raise CheckerError("collect_free_variables has no match on Expr")
+    # special names: what the evaluator resolves before the environment lookup is exactly what the capture analysis skips
+    ev_arms = {}
+    mev = H.matches_on(hev["body"], "ast::Expr")
+    for a in (mev[0]["arms"] if mev else []):
+        for v in H.pat_variants(a["pat"]):
+            ev_arms[H.last(v)] = a
+    special_ev = set()
+    if "Identifier" in ev_arms:
+        for n in H.walk(ev_arms["Identifier"]["body"]):
+            if H.kind(n) == "Match":
+                for aa in n["arms"]:
+                    for x in H.walk(aa["pat"]):
+                        if H.kind(x) == "Lit" and x["lk"] == "str":
+                            special_ev.add(x["v"])
+    special_cf = set()
+    for a in m[0]["arms"]:
+        if "Identifier" in [H.last(v) for v in H.pat_variants(a["pat"])]:
+            for x in H.walk(a):
+                if H.kind(x) == "Lit" and x["lk"] == "str":
+                    special_cf.add(x["v"])
+    for nm in sorted(special_ev | special_cf):
+        ctx.inst(rid, "special-name=%s" % nm, nm in special_ev and nm in special_cf,
+                 "resolved by the evaluator before the environment lookup: %s; skipped by collect_free_variables: %s (a name in one set only is either captured although it is never read, or reported unbound although it always resolves)" % (nm in special_ev, nm in special_cf), H.loc(hcf["body"]))
+
